@@ -18,7 +18,7 @@ sys.path.insert(0, os.path.dirname(os.path.abspath(__file__)))
 import gen  # noqa: E402
 import pyimpl  # noqa: E402
 
-DRIVER = os.path.join(os.path.dirname(os.path.abspath(__file__)), "..", "ocaml", "driver")
+DRIVER = os.path.join(os.path.dirname(os.path.abspath(__file__)), "..", "ocaml", "rundriver")
 
 
 def ends_of(res):
